@@ -1519,11 +1519,6 @@ _add("C16", "partial", [
     "both legs compare success / failure and the value; error messages are not compared",
     "c16_agree_partial restates c16_owned_borrowed",
 ])
-_add("C20", "partial", [
-    "'as_str(), Display and re-serialisation reproduce the literal exactly; parse-then-serialise changes nothing but whitespace': holds by "
-    "the serializer model's definition on Num.lit + c03_display_number; no text -> value -> text theorem is listed (c04_value_ap is value "
-    "-> text -> value)",
-])
 
 # ---- gaps of the honesty pass closed by theorems (branch wip-c11b): C11 converse of eof_at_end, grammar reading without SideOK,
 #      string-fault upper bound; C14 typed UTF-8; C12 'Syntax otherwise' and typed values.
@@ -1561,3 +1556,28 @@ PROPS["C12"]["level_text"] += (
     "whose items are accepted in place (ItemOK) with whitespace between and the delimiter rule yields exactly v1 .. vn with "
     "byte_offset() just past each item, then None at the end of the input for every further call; c12_typed_values_agree - the same "
     "for item texts of the C16 / C04 text leg (Agree1) separated by non-empty whitespace.")
+
+# ---- gaps of the honesty pass closed by theorems (branch wip-smalls): C20 text -> value -> text; C05 bytes target; C13 kind;
+#      C06 128-bit typed path; C08 typed f32.
+PROPS["C20"]["lean_targets"] = PROPS["C20"]["lean_targets"][:-1] + ["SJ.Props.C20Text"] + PROPS["C20"]["lean_targets"][-1:]
+PROPS["C20"]["configs"] = dict(quick=["ap"], thorough=["ap", "frap", "poap"])
+PROPS["C20"]["rule"] += (" Op reprint also on 900 (thorough 6000) generated documents with objects and strings, blanks at every place the "
+    "grammar allows and inside string literals: half of them with distinct keys in the map's order and every string in the serializer's "
+    "spelling (the output must be the input minus insignificant whitespace), the others breaking one proviso each (keys out of order, a "
+    "duplicate key, another RFC 8259 spelling of a string: \\u0041, \\/, \\ud83d\\ude00); thorough also under preserve_order (poap).")
+PROPS["C20"]["level_text"] += (
+    " Text -> value -> text (Props/C20Text.lean over Spec/TextNorm.lean, Proofs/TextNorm.lean): c20_text_roundtrip - for every text bs the "
+    "parser accepts under arbitrary_precision, with t its syntax tree and v the value: to_string(v) succeeds and is (1) always the compact "
+    "rendering of v = Spec.Canon.canon t (members in the Map's order, a duplicate key collapsed to its last value), (2) normText t - the "
+    "input's tokens in the input's order, no whitespace, EVERY NUMBER LITERAL BYTE FOR BYTE, strings in the serializer's spelling - when "
+    "every object has distinct keys standing in ascending byte order (Spec.TextNorm.keysInMapOrder; under preserve_order distinctness "
+    "alone), (3) stripWs bs - the input with the whitespace outside string literals removed by an independent byte-level scan, nothing "
+    "else changed - when moreover the string literals are spelled as the serializer spells them (spelledCanonically: RFC 8259 allows "
+    "other spellings of the same string, \\u0041 or \\/, which do not survive). c20_text_roundtrip_ap: the same for the token-aware "
+    "model Model.MachineAp on inputs without a private-token first key (c01_ap_conservative). c20_number_display: a parsed number "
+    "literal p gives Num.lit p.bytes and as_str, Display (one write_str), to_string of the Number, of the Value in both formatters and "
+    "Value's Display all return exactly p.bytes. The executable statement of op reprint is now clause (2) / (3) on the tree found by "
+    "the independent recogniser, and the model column is serCompact (ofValue (parseTop doc)).")
+PROPS["C20"]["technique"] += ("; composition of parser soundness (C02), the serializer theorem for Value (C03) and a mutual induction over the "
+    "syntax tree (render of the canonical value = compact spelling of the tree; a member list in map order is the map it builds); "
+    "induction over derivations for the byte-level whitespace stripper")
